@@ -156,6 +156,28 @@ def run(ctx):
                     if not ok:
                         ctx.violation("property_fails", f"{ep} with {label} differs from the list form: {str(got)[:120]} vs {str(base)[:120]}",
                                       {"cell": cell, "gens": gens, "central": gd["central"]}, True)
+    # generators of WIDE permutation graphs in every container: what the graph built from them DOES (neighbours, first layers), not only
+    # the values stored in the definition (narrow NumPy scalars kept inside the definition overflowed in later index arithmetic: finding F23)
+    for n in (12, 50, 64, 100):
+        gens = [G.rand_perm(rng, n) for _ in range(2)]
+        st = [G.rand_perm(rng, n)]
+        forms = containers(np, torch, gens, None, single=False)
+        forms += [(lab.replace("/rows", "/list_of_arrays"), [np.array(g, dtype=obj.dtype) for g in gens]) for lab, obj in forms if lab.startswith("np.")]
+        for width in ("auto", None):
+            def behaviour(o, width=width):
+                g = CayleyGraph(CayleyGraphDef.create(o, central_state=list(range(n))), bit_encoding_width=width, random_seed=3)
+                return [g.get_neighbors_decoded(torch.tensor(st)).tolist(), g.bfs(max_diameter=3).layer_sizes]
+            base = safe(lambda: behaviour([list(g) for g in gens]))
+            for label, obj in forms:
+                got = safe(lambda: behaviour(obj))
+                cell = f"graph from generators | {label} | perm/{'encoded' if width else 'plain'}/n={n}"
+                ok = got == base
+                prev = cells.get(cell)
+                cells[cell] = (prev[0] and ok, prev[1] + 1) if prev else (ok, 1)
+                ctx.cov["evaluations"] += 1
+                if not ok:
+                    ctx.violation("property_fails", f"a graph whose generators are given as {label} (n={n}, width={width}) behaves differently from the list form: "
+                                  f"{str(got)[:100]} vs {str(base)[:100]}", {"cell": cell, "gens": gens, "state": st, "width": width}, True)
     nontrivial = [c for c in cells if not ("list/rows" in c or "list/flat" in c)]
     ctx.cov["distinct_nontrivial"] = len(nontrivial)
     ctx.cov["exhaustive"] = True
